@@ -268,14 +268,31 @@ func (publisher *Publisher) Places() map[string]*place {
 					leftName := gedcom.String(leftIndividual.Name())
 					rightName := gedcom.String(rightIndividual.Name())
 
-					return leftName < rightName
+					if leftName != rightName {
+						return leftName < rightName
+					}
+
+					// Two individuals can have the same name.
+					leftPointer := leftIndividual.Pointer()
+					rightPointer := rightIndividual.Pointer()
+
+					if leftPointer != rightPointer {
+						return leftPointer < rightPointer
+					}
 				}
 
 				// Value.
 				valueLeft := gedcom.Value(left)
 				valueRight := gedcom.Value(right)
 
-				return valueLeft < valueRight
+				if valueLeft != valueRight {
+					return valueLeft < valueRight
+				}
+
+				// The events come out of a map. Anything that is still tied
+				// has to be ordered by something, otherwise the page is not
+				// the same every time.
+				return left.GEDCOMString(0) < right.GEDCOMString(0)
 			})
 		}
 	}
